@@ -17,7 +17,7 @@
 (* constraint.  Checked for every constraint over N variables with weights  *)
 (* up to W.                                                                 *)
 (***************************************************************************)
-EXTENDS Integers, FiniteSets, TLC
+EXTENDS Integers, FiniteSets, TLC, Json, CSV, IOUtils
 
 CONSTANTS N, W, KeepRest
 Vars == 1..N
@@ -53,4 +53,9 @@ Kept(c) == IF Forced(c) = {} THEN {c}
 Satisfiable(c) == Total(c) >= c.d
 NothingLost == Satisfiable(pb) => ModelsOf(Kept(pb)) = ModelsOf({pb})
 UnsatExact == ~Satisfiable(pb) <=> ModelsOf({pb}) = {}
+
+(* spec -> code: every constraint with a positive degree and at least one term goes through the real SimplifyPB *)
+EmitFile == IF "VERIF_EMIT" \in DOMAIN IOEnv THEN IOEnv.VERIF_EMIT ELSE "split_emit.ndjson"
+EmitSplit == (pb.d >= 1 /\ \E v \in Vars : pb.w[v] # 0) =>
+               CSVWrite("%1$s", <<ToJson([op |-> "split", w |-> pb.w, d |-> pb.d])>>, EmitFile)
 =============================================================================
